@@ -163,6 +163,104 @@ def recorded_piece_length(ctx, rid):
     ctx.floor("piece checkers whose piece length is traced to the metafile", 2, n)
 
 
+def recorded_hashes_verbatim(ctx, rid):
+    """The hashes a computed hash is compared with are the metafile's own: every store to the attribute the piece checkers
+    slice their recorded hash from (`self.pieces`) is a value decoded from the metafile (info.pieces, a piece layer, a pieces
+    root).  A reader that replaces them - by an empty string after a plausibility test of its own, by a re-computed value -
+    makes an intact payload of a well-formed metafile compare unequal."""
+    from tfsa.flow import Flow, walk_terms, show
+    fl = Flow(ctx.prog, ctx.res)
+    n = 0
+    for cq in ("torrentfile.recheck:FeedChecker", "torrentfile.recheck:HashChecker"):
+        cls = ctx.prog.cls(cq)
+        for f in cls.methods.values():
+            for st in own_nodes(f.node):
+                if not (isinstance(st, ast.Assign) and len(st.targets) == 1 and isinstance(st.targets[0], ast.Attribute) and st.targets[0].attr == "pieces"
+                        and isinstance(st.targets[0].value, ast.Name) and st.targets[0].value.id == f.self_name):
+                    continue
+                n += 1
+                terms = fl.term(st.value, f)
+                who = "%s.pieces in %s" % (cls.name, f.name)
+                consts = [t for t in terms if t[0] in ("const", "list", "fstr") or (t[0] == "ext" and t[1] in ("builtins.bytes", "builtins.bytearray"))]
+                recorded = [t for t in terms if any(x[0] == "ext" and x[1] == "pyben.load" for x in walk_terms(frozenset([t])))]
+                if consts:
+                    g = C.cfg_of(f)
+                    sn = C.stmt_node(ctx, f, st)
+                    guards = [norm(C.test_expr(b)) for b, _ in g.direct_control_deps(sn) if C.test_expr(b) is not None] if sn is not None else []
+                    # tests that merely select between the layer and the root (length against piece length) do not make the
+                    # replacement conditional on the metafile being malformed
+                    own = [t_ for t_ in guards if not ("length" in t_ and "piece_length" in t_)]
+                    if own:
+                        ctx.undecided(rid, f, "%s: the recorded hashes are replaced by `%s` when `%s`; that this condition is never met for a well-formed metafile is not decided - if it can be, "
+                                      "an intact payload reports less than 100%%" % (who, norm(st.value), own[0]), st)
+                    else:
+                        ctx.violated(rid, f, "%s: the recorded hashes are replaced by `%s`: every piece of that file then compares unequal, so an intact payload of a well-formed metafile "
+                                     "reports less than 100%%" % (who, norm(st.value)), st)
+                elif recorded and len(recorded) == len(terms):
+                    ctx.holds(rid, f, "%s is a value decoded from the metafile, taken verbatim" % who, st)
+                else:
+                    ctx.undecided(rid, f, "%s = `%s`: whether these are the metafile's recorded hashes is not decided (%s)" % (who, norm(st.value), show(terms, maxdepth=2)[:80]), st)
+    ctx.floor("stores of the recorded hashes in the piece checkers", 3, n)
+
+
+def reader_merkle_padding(ctx, rid):
+    """A reader that recomputes a pieces root from a piece layer must pad the layer the way the writers do (BEP 52): with the
+    root of an all-zero piece, not with 32 zero bytes.  The two agree only for 16 KiB pieces, so a validation that pads with
+    zero hashes rejects the layers of well-formed metafiles (piece length above 16 KiB, piece count not a power of two)."""
+    from .linear import fold_int
+    mod = ctx.prog.modules["torrentfile.recheck"]
+    consts = module_consts(mod)
+    n = 0
+    for f in ctx.prog.functions.values():
+        if f.module is not mod:
+            continue
+        calls = [c for c in own_nodes(f.node) if isinstance(c, ast.Call) and any(t.name == "merkle_root" for t in C.targets_of(ctx, f, c)) and c.args]
+        for c in calls:
+            arg = c.args[0]
+            if not isinstance(arg, ast.Name):
+                continue
+            pads = []
+            for st in own_nodes(f.node):
+                e = None
+                if isinstance(st, ast.Call) and isinstance(st.func, ast.Attribute) and st.func.attr == "extend" and isinstance(st.func.value, ast.Name) and st.func.value.id == arg.id and st.args:
+                    e = st.args[0]
+                if isinstance(st, ast.AugAssign) and isinstance(st.op, ast.Add) and isinstance(st.target, ast.Name) and st.target.id == arg.id:
+                    e = st.value
+                if e is None:
+                    continue
+                elem = None
+                if isinstance(e, (ast.ListComp, ast.GeneratorExp)) and len(e.generators) == 1:
+                    elem = e.elt
+                elif isinstance(e, ast.BinOp) and isinstance(e.op, ast.Mult):
+                    lst = e.left if isinstance(e.left, ast.List) else e.right if isinstance(e.right, ast.List) else None
+                    if lst is not None and len(lst.elts) == 1:
+                        elem = lst.elts[0]
+                if elem is not None:
+                    pads.append((st, elem))
+            # only layers (lists cut from a recorded layer string) are of interest: the list must be built from 32-byte slices
+            from_layer = any(isinstance(x, ast.Subscript) and isinstance(x.slice, ast.Slice) for w_, p_ in ctx.res.bindings(f).get(arg.id, []) if w_ == "value" for x in ast.walk(p_))
+            if not pads or not from_layer:
+                continue
+            for st, elem in pads:
+                n += 1
+                seen = 0
+                while isinstance(elem, ast.Name) and seen < 3:
+                    vals = [p_ for w_, p_ in ctx.res.bindings(f).get(elem.id, []) if w_ == "value"]
+                    if len(vals) != 1:
+                        break
+                    elem, seen = vals[0], seen + 1
+                zero = isinstance(elem, ast.Call) and isinstance(elem.func, ast.Name) and elem.func.id in ("bytes", "bytearray") and len(elem.args) == 1 and fold_int(elem.args[0], consts) == 32
+                root = isinstance(elem, ast.Call) and any(t.name == "merkle_root" for t in C.targets_of(ctx, f, elem))
+                if zero:
+                    ctx.violated(rid, f, "%s recomputes a pieces root from a piece layer padded with 32 zero bytes (`%s`); the writers (and BEP 52) pad the layer with the root of an all-zero piece - "
+                                 "for piece lengths above 16 KiB and a piece count that is not a power of two the recomputed root differs and the layer of a well-formed metafile is rejected" % (f.name, norm(st)[:60]), st)
+                elif root:
+                    ctx.holds(rid, f, "%s pads the piece layer with the root of an all-zero piece before recomputing the pieces root" % f.name, st)
+                else:
+                    ctx.undecided(rid, f, "%s pads a piece layer with `%s` before recomputing a pieces root; whether that is the root of an all-zero piece is not decided" % (f.name, norm(elem)[:50]), st)
+    return n
+
+
 ROUNDERS = ("round", "int", "ceil", "floor", "trunc", "min", "max", "format", "str", "float")
 
 
